@@ -40,6 +40,8 @@ def build_plan(choice: Choice, tier):
             n = d(41 if thorough else 15, "items")
         call["n"] = n
         call["lazy"] = d(3, "lazy") == 2
+        # 'exact': the caller takes exactly len(data) results (zip / islice style) and never asks for more
+        call["consume"] = "exact" if d(4, "consume") == 3 else "full"
         calls.append(call)
     p["calls"] = calls
     return p
@@ -47,6 +49,15 @@ def build_plan(choice: Choice, tier):
 
 def f_of(c, x):
     return (c, x, "r")
+
+
+def take(inner, n):
+    """Exactly n results, without asking the generator for more (zip / islice style consumption)."""
+    for _ in range(n):
+        try:
+            yield next(inner)
+        except StopIteration:
+            return
 
 
 def scenario(k: Kernel, plan, obs):
@@ -89,7 +100,10 @@ def scenario(k: Kernel, plan, obs):
                 out = []
                 obs["outs"].append(out)
                 obs["call_state"].append("running")
-                for v in fm(data_of(c, call), call["chunk"]):
+                gen = fm(data_of(c, call), call["chunk"])
+                if call["consume"] == "exact":
+                    gen = take(gen, call["n"])
+                for v in gen:
                     out.append(v)
                     if cp == 1:
                         k.switch("consumer.pause")
@@ -175,7 +189,7 @@ class Spec:
         "while items are in flight; payloads are pickled at put() (the real feeder thread pickles slightly later)",
         "sampling, not enumeration",
     ]
-    PROBES = ["pipe.get_empty_while_in_flight", "out-of-order-arrival", "final-drain-with-2-outstanding"]
+    PROBES = ["pipe.get_empty_while_in_flight", "out-of-order-arrival"]
     RULE = ("one run = one seeded plan (FunctorMap or mul_p_map, workers, call list with lengths/chunk sizes, pipe "
             "delay and capacity, functor/consumer pauses) plus one seeded schedule; non-trivial = at least two tasks "
             "runnable at once and at least one pre-emption; distinct = distinct sync-order signature (hash of the "
